@@ -366,7 +366,9 @@ func (g *fastGenerator) field(proto3 bool, field *protogen.Field, oneof bool) {
 				g.P(`if x.`, fieldname, ` != 0 {`)
 			}
 			g.P(`n+=`, strconv.Itoa(key), `+`, runtimePackage.Ident("Soz"), `(uint64(x.`, fieldname, `))`)
-			g.P(`}`)
+			if !oneof {
+				g.P(`}`)
+			}
 		} else {
 			g.P(`n+=`, strconv.Itoa(key), `+`, runtimePackage.Ident("Soz"), `(uint64(x.`, fieldname, `))`)
 		}
